@@ -2,6 +2,7 @@ package checks
 
 import (
 	"fmt"
+	"math"
 	"strings"
 
 	"github.com/pip-services3-gox/pip-services3-expressions-gox/tokenizers"
@@ -24,6 +25,7 @@ type c17Op struct {
 }
 
 var c17Ops []c17Op
+var c17CoreOps int // the first c17CoreOps operations have both ends inside U+0000..U+FFFE
 var c17Probes []rune
 var c17RefA, c17RefB = new(int), new(int)
 
@@ -39,6 +41,15 @@ func init() {
 		c17Ops = append(c17Ops, c17Op{'d', 0, 0, ref})
 	}
 	c17Ops = append(c17Ops, c17Op{'c', 0, 0, 0})
+	c17CoreOps = len(c17Ops)
+	// ranges whose end lies beyond the map's last character U+FFFE ("up to the last rune"): the part inside counts
+	for _, lo := range c17Endpoints {
+		for _, hi := range []rune{0xFFFF, 0x10FFFF, math.MaxInt32} {
+			for ref := 0; ref < 3; ref++ {
+				c17Ops = append(c17Ops, c17Op{'i', lo, hi, ref})
+			}
+		}
+	}
 	seen := map[rune]bool{}
 	for _, e := range c17Endpoints {
 		for _, p := range []rune{e - 1, e, e + 1} {
@@ -107,6 +118,9 @@ func c17Run(c *mon.Case, hist string) {
 		for pi := range c17Probes {
 			p := c17Probes[(pi+rot)%len(c17Probes)]
 			want := 0
+			if p > 0xFFFE {
+				continue // beyond the map's last character: not part of any range's countable part
+			}
 			for i := len(model) - 1; i >= 0; i-- {
 				if p >= model[i].lo && p <= model[i].hi {
 					want = model[i].ref
@@ -151,12 +165,12 @@ func buildC17(cfg *mon.Config) []*mon.Sub {
 	maxLen := 3
 	exh := &mon.Sub{
 		Name:          "history-exhaustive",
-		Rule:          fmt.Sprintf("every history of length <= %d over the 88 operations {AddInterval(lo,hi,ref) for the 28 ordered endpoint pairs of {0,'a',0xFF,0x100,0x101,0x2000,0xFFFE} x refs {A,B,none}; AddDefaultInterval(ref); Clear}, probed after every operation at every endpoint and its neighbours plus 0x1000, 0x8000, 0xFFFF (%d probes) against a newest-first list model with pointer identity; non-trivial = some registration spans the U+0100 boundary", maxLen, len(c17Probes)),
+		Rule:          fmt.Sprintf("every history of length <= %d over the 88 operations {AddInterval(lo,hi,ref) for the 28 ordered endpoint pairs of {0,'a',0xFF,0x100,0x101,0x2000,0xFFFE} x refs {A,B,none}; AddDefaultInterval(ref); Clear}, probed after every operation at every endpoint and its neighbours plus 0x1000, 0x8000, 0xFFFF (%d probes) against a newest-first list model with pointer identity; plus every history of length 2 in which at least one range ends beyond the map's last character (at U+FFFF, U+10FFFF or the largest rune value 0x7FFFFFFF; the part of such a range inside U+0000..U+FFFE counts, probes beyond U+FFFE are not judged); non-trivial = some registration spans the U+0100 boundary", maxLen, len(c17Probes)),
 		Exhaustive:    true,
 		DistinctByGen: true,
 		Floor:         1000,
 		Gen: func(emit func(string)) {
-			n := len(c17Ops)
+			n := c17CoreOps
 			buf := make([]byte, 0, 4)
 			var rec func(d int)
 			rec = func(d int) {
@@ -187,12 +201,20 @@ func buildC17(cfg *mon.Config) []*mon.Sub {
 			}
 			_ = rec
 			recMax(maxLen)
+			// all histories of length 2 over the full operation list (with the ranges that end beyond U+FFFE)
+			n = len(c17Ops)
+			for i := c17CoreOps; i < n; i++ {
+				for j := 0; j < n; j++ {
+					emit(string([]byte{byte(i), byte(j)}))
+					emit(string([]byte{byte(j), byte(i)}))
+				}
+			}
 		},
 		Exec: func(c *mon.Case) { c17Run(c, c.Payload) }, Sample: c17Sample,
 	}
 	rnd := &mon.Sub{
 		Name:  "history-random",
-		Rule:  "seeded random histories of length 4..30 over the same 88 operations (length 4 sampled densely; one in eight with 34..93 registrations and no Clear), same oracle",
+		Rule:  "seeded random histories of length 4..30 over the same 88 operations and the 63 ranges that end beyond U+FFFE (length 4 sampled densely; one in eight with 34..93 registrations and no Clear), same oracle",
 		Floor: 1000,
 		Gen: func(emit func(string)) {
 			r := cfg.Rng("c17-random")
@@ -208,6 +230,9 @@ func buildC17(cfg *mon.Config) []*mon.Sub {
 					b[j] = byte(r.Intn(len(c17Ops)))
 					if n > 33 && c17Ops[b[j]].kind == 'c' {
 						b[j] = byte(r.Intn(84)) // long histories: no Clear
+					}
+					if r.Chance(1, 2) && int(b[j]) >= c17CoreOps {
+						b[j] = byte(r.Intn(c17CoreOps))
 					}
 				}
 				emit(string(b))
@@ -289,7 +314,90 @@ func buildC17(cfg *mon.Config) []*mon.Sub {
 			}
 		},
 	}
-	subs := []*mon.Sub{exh, rnd, tokz}
+	tokHist := &mon.Sub{
+		Name:  "tokenizer-state-history",
+		Rule:  "seeded histories of 2..6 calls SetCharacterState(lo, hi, state) on one generic tokenizer, lo <= hi from {0, '!', 'a', 'z', '~', 0xFF, 0x100, 0x2000, 0xFFFE}, state from {word, symbol, quote, number, whitespace, none}; after every call GetCharacterState of 40 probe characters must be the state of the latest call whose range contains the probe, or what a fresh tokenizer answers when no call covers it (so a range whose ends already have the requested state is still applied to its inside, and disabling really disables); non-trivial = some call's range had both ends already in the requested state",
+		Floor: 1000,
+		Gen: func(emit func(string)) {
+			r := cfg.Rng("c17-tokhist")
+			for i := 0; i < cfg.N(20000, 1000000); i++ {
+				n := 2 + r.Intn(5)
+				b := make([]byte, 3*n)
+				for j := 0; j < n; j++ {
+					lo, hi := r.Intn(9), r.Intn(9)
+					if lo > hi {
+						lo, hi = hi, lo
+					}
+					b[3*j], b[3*j+1], b[3*j+2] = byte('0'+lo), byte('0'+hi), byte('0'+r.Intn(6))
+				}
+				emit(string(b))
+			}
+		},
+		Exec: func(c *mon.Case) {
+			ends := []rune{0, '!', 'a', 'z', '~', 0xFF, 0x100, 0x2000, 0xFFFE}
+			probes := []rune{}
+			for _, e := range ends {
+				probes = append(probes, e, e+1)
+				if e > 0 {
+					probes = append(probes, e-1)
+				}
+			}
+			probes = append(probes, 'A', 'm', '5', ' ', '"', '+', 0x80, 0xC0, 0x150, 0x1000, 0x3000, 0x8000, 0xF000)
+			t, fresh := generic.NewGenericTokenizer(), generic.NewGenericTokenizer()
+			states := []tokenizers.ITokenizerState{t.WordState(), t.SymbolState(), t.QuoteState(), t.NumberState(), t.WhitespaceState(), nil}
+			freshStates := []tokenizers.ITokenizerState{fresh.WordState(), fresh.SymbolState(), fresh.QuoteState(), fresh.NumberState(), fresh.WhitespaceState(), nil}
+			names := []string{"word", "symbol", "quote", "number", "whitespace", "none"}
+			index := func(st tokenizers.ITokenizerState, of []tokenizers.ITokenizerState) int {
+				for i, s := range of {
+					if st == s || (st == nil && s == nil) {
+						return i
+					}
+				}
+				return -1
+			}
+			type call struct {
+				lo, hi rune
+				st     int
+			}
+			var hist []call
+			var desc []string
+			for j := 0; j+2 < len(c.Payload); j += 3 {
+				cl := call{ends[c.Payload[j]-'0'], ends[c.Payload[j+1]-'0'], int(c.Payload[j+2] - '0')}
+				if index(t.GetCharacterState(cl.lo), states) == cl.st && index(t.GetCharacterState(cl.hi), states) == cl.st {
+					c.NonTrivial()
+				}
+				if p := mon.Try(func() { t.SetCharacterState(cl.lo, cl.hi, states[cl.st]) }); p != nil {
+					c.FailPanic("SetCharacterState", p)
+					return
+				}
+				hist = append(hist, cl)
+				desc = append(desc, fmt.Sprintf("SetCharacterState(%#x,%#x,%s)", cl.lo, cl.hi, names[cl.st]))
+				for _, p := range probes {
+					if p > 0xFFFE {
+						continue
+					}
+					want := index(fresh.GetCharacterState(p), freshStates)
+					for k := len(hist) - 1; k >= 0; k-- {
+						if p >= hist[k].lo && p <= hist[k].hi {
+							want = hist[k].st
+							break
+						}
+					}
+					if got := index(t.GetCharacterState(p), states); got != want {
+						nm := func(i int) string {
+							if i < 0 {
+								return "another state"
+							}
+							return names[i]
+						}
+						c.Failf("tokenizer does not hand a configured character to the configured state", "generic tokenizer after [%s]: GetCharacterState(%#x) is %s, the latest covering call says %s", strings.Join(desc, "; "), p, nm(got), nm(want))
+						return
+					}
+				}
+			}
+		},
+	}
+	subs := []*mon.Sub{exh, rnd, tokz, tokHist}
 	if !cfg.Quick() {
 		// length 4 exhaustively would be 60M histories; sampled densely above.
 	}
